@@ -205,6 +205,60 @@ def check_default_scalar_initialisers(rep):
                                  'member left out: %s' % (cdc.upper(), gen.ty_sexp(t), name, first.hex(), second.hex(), want.hex()), case)
 
 
+def check_reads_between_handle_and_fill(rep):
+    """a value built in steps with read-only uses in between: a handle on a nested member (still empty, or half filled) is taken,
+    the parent is encoded / printed / compared / iterated / natively encoded, then the member is filled through the handle - the
+    finished value encodes exactly like the one built without the uses in between"""
+    from pyasn1.type import namedtype
+    from pyasn1.codec.native import encoder as native_encoder
+
+    def schema(cls):
+        return cls(componentType=namedtype.NamedTypes(
+            namedtype.NamedType('id', univ.Integer()),
+            namedtype.OptionalNamedType('tags', univ.SequenceOf(componentType=univ.Integer())),
+            namedtype.OptionalNamedType('opt', univ.Sequence(componentType=namedtype.NamedTypes(
+                namedtype.NamedType('a', univ.Integer()), namedtype.NamedType('b', univ.OctetString()))))))
+    uses = {
+        'der': lambda o: der_encoder.encode(o), 'cer': lambda o: cer_encoder.encode(o), 'ber': lambda o: ber_encoder.encode(o),
+        'ber-indef': lambda o: ber_encoder.encode(o, defMode=False), 'native': lambda o: native_encoder.encode(o),
+        'print': lambda o: o.prettyPrint(), 'eq': lambda o: o == o, 'items': lambda o: list(o.items()), 'clone': lambda o: o.clone(cloneValueFlag=True),
+        'len-iter': lambda o: (len(o), list(o)), 'isValue': lambda o: o.isValue,
+    }
+    histories = {
+        'list-handle': (lambda r: r.__setitem__('id', 1), lambda r: r['tags'], lambda r, h: h.append(7)),
+        'list-handle-two': (lambda r: (r.__setitem__('id', 1), r['tags'].append(3)), lambda r: r['tags'], lambda r, h: h.append(7)),
+        'record-handle': (lambda r: r.__setitem__('id', 1), lambda r: r['opt'], lambda r, h: (h.__setitem__('a', 2), h.__setitem__('b', b'x'))),
+        'record-half': (lambda r: (r.__setitem__('id', 1), r['opt'].__setitem__('a', 2)), lambda r: r['opt'], lambda r, h: h.__setitem__('b', b'x')),
+        'record-half-refetch': (lambda r: (r.__setitem__('id', 1), r['opt'].__setitem__('a', 2)), lambda r: None, lambda r, h: r['opt'].__setitem__('b', b'x')),
+    }
+    for cls in (univ.Sequence, univ.Set):
+        for hname, (first, handle, fill) in sorted(histories.items()):
+            plain = schema(cls)
+            first(plain)
+            fill(plain, handle(plain))
+            want = {'der': enc(der_encoder, plain), 'cer': enc(cer_encoder, plain)}
+            for uname, use in sorted(uses.items()):
+                rep.evaluations += 1
+                rep.count('reads-between-handle-and-fill')
+                case = {'kind': 'handle-fill', 'container': cls.__name__, 'history': hname, 'use': uname}
+                r = schema(cls)
+                first(r)
+                h = handle(r)
+                try:
+                    use(r)
+                except error.PyAsn1Error:
+                    pass            # an unfinished value may refuse to be encoded; that is no change either
+                try:
+                    fill(r, h)
+                except Exception as ex:  # noqa
+                    rep.fail('handle-fill-' + codec.classify(ex), '%s after %s: %r' % (hname, uname, ex), case)
+                    continue
+                got = {'der': enc(der_encoder, r), 'cer': enc(cer_encoder, r)}
+                if got != want:
+                    rep.fail('bytes-differ-after-read-only-use-' + uname, '%s %s: built with %s in between encodes as %s, without as %s' % (
+                        cls.__name__, hname, uname, got['der'][:80], want['der'][:80]), case)
+
+
 def derived_scalar(t, v, schema):
     """the scalar held by an object of a *derived, more constrained* subtype of the declared type (which a
     container accepts wherever it accepts the declared type): same abstract value, another route"""
@@ -596,6 +650,8 @@ def run(rep, tier, seed):
     kernels.check(rep, drv, seed, 150 if quick else 5000, which=('setOfSort',))
     rep.case('default initialisers', nontrivial=True)
     check_default_scalar_initialisers(rep)
+    rep.case('reads between handle and fill', nontrivial=True)
+    check_reads_between_handle_and_fill(rep)
     for ts, vs in ROUTE_CORPUS:
         t = sexp_types.ty_of_sexp(gen.parse_sexps(ts)[0])
         v = gen.val_of_sexp(gen.parse_sexps(vs)[0])
